@@ -8,6 +8,10 @@ CHECKS = {
  "C01": dict(level="exploration", design="3/C01", technique="runtime monitoring: recording exec interposer + offline per-call oracle",
    text="Every generated call (config x path/argv/envp shape x outcome, every errno) is executed through the production libsnoopy.so with a recording execv/execve where RTLD_NEXT resolves; the oracle checks exactly-once, pointer identity, deep content hashes before/at/after, ret/errno delivery, no sink activity after the real call, mutex depth 0 and empty thread registry at the real call, and the argv/envp seen by a really exec'd image. Held on the executions observed, not a proof.",
    note="Trusts: LD_PRELOAD symbol order (libvrec.so right after libsnoopy.so), the driver's own hashing, strace-free observation; shapes are sampled, not exhaustive."),
+ "C02": dict(level="exploration", design="3/C02", technique="compiler sanitizers (ASan+UBSan, reports fatal) over generated/mutated configs and inputs, in vivo and in vitro",
+   text="ASan+UBSan builds of the working tree (thread-safe and not) are driven, one process per case, with grammar-generated and byte-mutated snoopy.ini files crossed with exec shapes and hostile environments (environ==NULL, thousands of variables, 1 MiB values) through the production entry points; the same build's static archive is linked into an instrumented harness that calls every data source / filter / output / helper with exact-size heap buffers from 257 bytes to 1 MiB+1 under hostile process states. Any sanitizer report, fatal signal, watchdog firing, missing real exec or unterminated result buffer is a violation.",
+   note="Red-zone sanitizers see adjacent overflows and UB on the paths the workload reaches only; a clean run is not memory safety. libFuzzer arm not built."),
+
  "C04": dict(level="exploration", design="3/C04", technique="runtime monitoring: driver-owned sinks sampled at the real-exec instant + format/frame oracle",
    text="All sinks a record could reach (log files, stdout/stderr pipes, pty, datagram sockets for socket: and redirected /dev/log) are owned by the driver and sampled at call begin, at the instant the recording exec is entered and after return; the oracle demands exactly M+newline / one datagram M / one datagram <pri>ident[pid]: M at the configured sink only, already at the real-exec instant, nothing later, and nothing at all for dropped or empty messages; successful real execs are checked from the parent side.",
    note="Message carried in argv through %{cmdline}; /dev/log redirected by an interposed connect(); OS datagram size limit and pty capacity bound the sizes used for those sinks."),
